@@ -54,6 +54,7 @@ def run(ctx):
         ctx.oblige('T3 regenerated ABC._send_onlooker\'s selection probability and loop shape', False, str(ex))
     ok, log = ctx.build_props()
     if ok:
+        _ir.nonvacuity(ctx, meta)
         _ir.check_programs(ctx, meta, IMPORTS, '(fun p => c03_check KBase p || c03_check KPso p || c03_check KTree p)', None,
                            'hook/sweep/iteration structure of run()', 'C03_iterations_hooks_sweeps')
         got = budgets(ctx)
